@@ -267,11 +267,14 @@ def verify_lemma(args):
 
 
 def run_native_entry(args):
-    kind, name, tier, seed = args
+    kind, name, tier, seed = args[:4]
     ent = (api.BOUNDED if kind == "bounded" else api.FINITE)[name]
     t0 = time.time()
     try:
-        r = ent["fn"](tier, random.Random(seed))
+        rng = random.Random(seed)
+        # exhaustive checks may split their enumeration: shard k of n (random checks simply get different seeds)
+        rng.shard_index, rng.shard_count = (args[4], args[5]) if len(args) > 5 else (0, 1)
+        r = ent["fn"](tier, rng)
         r = dict(r or {})
     except Exception as e:
         r = {"error": "%s: %s" % (type(e).__name__, e), "tb": traceback.format_exc()[-1500:]}
@@ -300,7 +303,7 @@ def check_property(pid, tier, seed, jobs=None, only=None):
     tasks = tasks + \
             [(verify_lemma, (n, tier, seed, timeout_ms)) for n in lemmas] + \
             [(run_native_entry, ("finite", n, tier, seed)) for n in fin] + \
-            [(run_native_entry, ("bounded", n, tier, seed + 7919 * k))
+            [(run_native_entry, ("bounded", n, tier, seed + 7919 * k, k, api.BOUNDED[n].get("shards", 1) if tier == "thorough" else 1))
              for n in bnd for k in range(api.BOUNDED[n].get("shards", 1) if tier == "thorough" else 1)]
     jobs = jobs or min(16, max(1, len(tasks)))
     results = []
